@@ -160,8 +160,48 @@ type PartReport struct {
 	Rule        string                 `json:"rule,omitempty"`
 }
 
+// ConfOpts asks an exploration to bind its seam to the real transaction path afterwards (see Conformance).
+type ConfOpts struct {
+	Stores     []string        // module stores compared after every committed block
+	SkipDenoms map[string]bool // denoms whose balances the full app changes on its own (x/mint inflates the bond denom)
+	MaxPaths   int             // cap on the number of depth<=2 paths replayed (quick); thorough uses 10x
+}
+
 // ExplorePart wraps a driver exploration as a Part.
 func ExplorePart(name string, mk func() (*Env, Driver), depthQuick, depthThorough int, txSeq bool, rule string) Part {
+	return ExplorePartC(name, mk, depthQuick, depthThorough, txSeq, rule, nil)
+}
+
+// enumeratePaths lists op-name paths of length <= depth in DFS order (no dedup), up to max.
+func enumeratePaths(mk func() (*Env, Driver), depth, max int) [][]string {
+	e, d := mk()
+	var out [][]string
+	var rec func(s *State, path []string)
+	rec = func(s *State, path []string) {
+		if len(out) >= max {
+			return
+		}
+		if len(path) > 0 {
+			out = append(out, append([]string{}, path...))
+		}
+		if len(path) >= depth {
+			return
+		}
+		for _, op := range d.Enabled(e, s) {
+			if len(out) >= max {
+				return
+			}
+			c := s.branch()
+			d.Apply(e, c, op)
+			rec(c, append(append([]string{}, path...), op.Name))
+		}
+	}
+	rec(d.Init(e), nil)
+	return out
+}
+
+// ExplorePartC is ExplorePart with an optional conformance pass.
+func ExplorePartC(name string, mk func() (*Env, Driver), depthQuick, depthThorough int, txSeq bool, rule string, conf *ConfOpts) Part {
 	return Part{
 		Name: name,
 		Run: func(tier string, known []KnownFinding, deadline time.Time) PartReport {
@@ -194,6 +234,56 @@ func ExplorePart(name string, mk func() (*Env, Driver), depthQuick, depthThoroug
 			sort.Strings(rep.NeverOK)
 			for _, s := range r.Samples {
 				rep.Samples = append(rep.Samples, s)
+			}
+			if conf != nil && len(r.Violations) == 0 && r.InternalError == "" {
+				max := conf.MaxPaths
+				if max == 0 {
+					max = 200
+				}
+				if tier == "thorough" {
+					max *= 10
+				}
+				paths := enumeratePaths(mk, 2, max)
+				paths = append(paths, r.Samples...)
+				// split over workers: every worker validates its share on its own pair of applications
+				nw := workers
+				if nw > len(paths) {
+					nw = len(paths)
+				}
+				results := make([]ConformanceResult, nw)
+				var wg sync.WaitGroup
+				for w := 0; w < nw; w++ {
+					wg.Add(1)
+					go func(w int) {
+						defer wg.Done()
+						var mine [][]string
+						for i := w; i < len(paths); i += nw {
+							mine = append(mine, paths[i])
+						}
+						results[w] = Conformance(mk, mine, conf.Stores, conf.SkipDenoms)
+					}(w)
+				}
+				wg.Wait()
+				var tot ConformanceResult
+				for _, c := range results {
+					tot.Validated += c.Validated
+					tot.Skipped += c.Skipped
+					tot.Txs += c.Txs
+					tot.Blocks += c.Blocks
+					if c.Mismatch != "" && tot.Mismatch == "" {
+						tot.Mismatch = c.Mismatch
+					}
+					if len(tot.SamplePaths) < 3 {
+						tot.SamplePaths = append(tot.SamplePaths, c.SamplePaths...)
+					}
+				}
+				rep.Validated += int64(tot.Validated)
+				rep.Bounds["conformance"] = map[string]interface{}{"paths_replayed_through_signed_txs_FinalizeBlock_Commit": tot.Validated,
+					"paths_not_expressible_as_signed_txs": tot.Skipped, "signed_txs": tot.Txs, "blocks_committed": tot.Blocks, "sample_paths": tot.SamplePaths,
+					"cross_instance_prefix_replays": r.PrefixReplays}
+				if tot.Mismatch != "" {
+					rep.Internal = "seam does not conform to the real transaction pipeline: " + tot.Mismatch
+				}
 			}
 			// confirm + minimise each violation
 			for _, v := range r.Violations {
